@@ -42,7 +42,7 @@ type Case struct {
 
 var allOps = []string{"Create", "Mkdir", "MkdirAll", "Open", "OpenFile", "Remove", "RemoveAll", "Rename", "Stat", "Chmod", "Chown", "Chtimes", "ReadFile", "WriteFile", "Readdir"}
 var roots = []string{"/", "/proj", "/a/b", "/a/b/c", "/my.proj/x y", "/a/b.c/d"}
-var segAlphabet = []string{"", ".", "..", "..", "a", "b", "lib", "b.c", "x y", "..a", "a..", "proj", "etc", "secret", "f.sysl"}
+var segAlphabet = []string{"", ".", "..", "..", "a", "b", "lib", "b.c", "x y", "..a", "a..", "proj", "etc", "secret", "f.sysl", "Proj", "A", "B", "My.Proj"}
 var errnos = map[string]syscall.Errno{"ENOENT": syscall.ENOENT, "EACCES": syscall.EACCES, "EIO": syscall.EIO, "ENOSPC": syscall.ENOSPC}
 
 // populate builds the same world on a disk: things inside the root and, around it,
@@ -63,6 +63,11 @@ func populate(fs *simfs.Fs, root string) {
 	fs.PutFile("/a/bb/f.sysl", []byte("prefix sibling of /a/b"))
 	fs.PutFile("/a/b/f.sysl.bak", []byte("inside /a/b, outside /a/b/c"))
 	fs.PutFile("/my.proj/x yz/f", []byte("prefix sibling with a space"))
+	// case variants of the roots: different directories on a case-sensitive disk
+	fs.PutFile("/Proj/f.sysl", []byte("outside: /Proj is not /proj"))
+	fs.PutFile("/A/b/f.sysl", []byte("outside: /A/b is not /a/b"))
+	fs.PutFile("/a/B/c/f.sysl", []byte("outside: /a/B/c is not /a/b/c"))
+	fs.PutFile("/My.Proj/x y/f.sysl", []byte("outside: case variant of /my.proj/x y"))
 	fs.PutDir("/tmp")
 }
 
